@@ -184,7 +184,8 @@ def mcnp_surface(mn, p):
                 return cylinder((0, 0, 0), ax, r1)
             t = (r2 - r1) / (x2 - x1)
             x0 = x1 - r1 / t           # apex
-            sheet = 1 if x1 > x0 else -1
+            xfar = x1 if r1 > r2 else x2   # the point away from the apex (either point may be the apex itself)
+            sheet = 1 if xfar > x0 else -1
             return cone(np.array(ax) * x0, ax, t * t, sheet)
         raise ValueError('x/y/z with %d entries' % len(p))
     raise KeyError(mn)
